@@ -75,6 +75,7 @@ static Json op_to_json(const Op &op) {
         o.set("guard_side", op.guard ? "front" : "behind");
       }
       if (op.twin) o.setb("twin", true);
+      if (op.twin && op.k > 0) o.set("twin_capacity", op.k);
       break;
     case OP_SETTER:
       o.set("setter", SETTER_NAMES[op.which % 5]);
@@ -139,6 +140,7 @@ static bool op_from_json(const Json &o, Op &op, std::string *err) {
     op.fill = (int)o.num("fill", 0xCC);
     op.guard = o.str("guard_side") == "front" ? 1 : 0;
     op.twin = o.boolean("twin");
+    if (op.twin && o.has("twin_capacity")) op.k = o.num("twin_capacity");
   }
   if (op.kind == OP_SETTER) {
     std::string s = o.str("setter");
@@ -153,7 +155,7 @@ static bool op_from_json(const Json &o, Op &op, std::string *err) {
   if (op.kind == OP_SABOTAGE) op.which = (int)o.num("sin");
   if (op.kind == OP_REFILL) op.fill = (int)o.num("fill", 0xCC);
   op.c = o.num("c");
-  op.k = o.num("k");
+  if (o.has("k")) op.k = o.num("k");
   op.on = o.boolean("on");
   if (const Json *l = o.get("lines"))
     for (const Json &s : l->a) op.lines.push_back(s.s);
